@@ -75,7 +75,8 @@ def generate(rng, tier, cls):
     else:
         prod = {'id': 'P1', 'kind': 'raw', 'file': 'f1',
                 'foreign': gen.gen_foreign(rng, meta_le=False,
-                                           p_main_none=0.08)}
+                                           p_main_none=0.08,
+                                           unknown_labels=True)}
 
     return {'actors': [prod], 'schedule': [], 'faults': [],
             'via': rng.choice(['from_stream', 'from_stream', 'from_bytes',
